@@ -158,6 +158,14 @@ def gen_cases(tier, seed):
                 i += 1
                 for k in range(3 if quick else 4):
                     yield _case(fields, bd, mems[(i + k) % 4], FRAMINGS[(i + 3 * k) % nf], (i + k) % 4 != 0)
+    # (2b) ONE name used several times as a text field and several times as an upload, in every order (length 4 and 5)
+    for n in (4, 5):
+        for bits in itertools.product((0, 1), repeat=n):
+            fields = [('file', 'a', 'f%d.txt' % k, None, b'data%d' % k) if b else ('text', 'a', 't%d' % k) for k, b in enumerate(bits)]
+            mems = _mems(fields)
+            i += 1
+            for k in range(2):
+                yield _case(fields, 'BND', mems[(i + k) % 4], FRAMINGS[(i + 3 * k) % nf], True)
     # (3) small-scope adversarial content for boundary X: all strings over {CR, LF, -, X, a}
     maxd = 5 if quick else 6
     delim = b'\r\n--X'
